@@ -628,6 +628,11 @@ def register(T, repo):
             ('unknowns:undeclared-text-use-recorded', em_record)],
         post_objs=[('buffer', lambda A: A['buf'], post_buf),
                    ('parser', P_self, post_parser)]))
+    # the loop that skips space behind the macro name (it stops in front of
+    # a language switch): only the buffer changes
+    lp = c.loop(0)
+    lp.shapes['buf.tokens'] = lambda E: tm.DocList(E['src'])
+    c.loop_ok = True
 
     # ---------------------------------------------------- expand_arguments
     def note_expansion(ex, st, A):
@@ -978,6 +983,18 @@ def register(T, repo):
     lp.shapes['out'] = lambda E: tm.DocList(E['src'])
     lp.invs.append(('last-in-range', lambda E: And(
         0 <= zint(E['last']), zint(E['last']) <= zint(E['toks'].length()))))
+
+    # C03 / C18 (skipped regions): an iteration that goes round again has
+    # found an opening comment at `beg` at or behind the resume point and
+    # resumes strictly behind it -- tokens are copied at most once
+    # (toks[last:beg] then continue at last' > beg) and every skipped region
+    # starts with an opening comment
+    def pw_progress(E0, E1):
+        return And(zint(E0['last']) <= zint(E1['beg']),
+                   zint(E1['beg']) < zint(E1['last']),
+                   zint(E1['last']) <= zint(E1['toks'].length()))
+    lp.body_post.append(('resume-point-moves-behind-the-opening-comment',
+                         pw_progress))
 
     # ------------------------------------------------------------- parse
     def parse_ghost(ex, st, mode, vals):
